@@ -62,6 +62,25 @@ class _Continue(Exception):
     pass
 
 
+def _is_generator(fnode):
+    """does the function body contain a yield of its own (nested functions excluded)?"""
+    cached = getattr(fnode, "_pdv_is_generator", None)
+    if cached is not None:
+        return cached
+    found = False
+    stack = list(fnode.body)
+    while stack:
+        n = stack.pop()
+        if isinstance(n, (ast.FunctionDef, ast.AsyncFunctionDef, ast.Lambda, ast.ClassDef)):
+            continue
+        if isinstance(n, (ast.Yield, ast.YieldFrom)):
+            found = True
+            break
+        stack.extend(ast.iter_child_nodes(n))
+    fnode._pdv_is_generator = found
+    return found
+
+
 class Frame:
     def __init__(self, func, parent, module):
         self.func = func
@@ -331,6 +350,12 @@ class Interp:
         if m is None:
             raise Unsupported(f"expression {type(node).__name__} at line {getattr(node, 'lineno', '?')}")
         return m(node, fr)
+
+    def e_Yield(self, node, fr):
+        if not hasattr(fr, "yielded"):
+            raise Unsupported("yield outside a generator function")
+        fr.yielded.append(self.eval(node.value, fr) if node.value is not None else None)
+        return None
 
     def e_Constant(self, node, fr):
         v = node.value
@@ -910,6 +935,16 @@ class Interp:
         try:
             if isinstance(fn.node, ast.Lambda):
                 return self.eval(fn.node.body, fr)
+            if _is_generator(fn.node):
+                # generator functions are evaluated eagerly into the list of yielded values: faithful when
+                # the consumer takes all values and does not change state the generator reads between yields
+                fr.yielded = []
+                self.ctx.notes.append(f"generator {fn.qualname} evaluated eagerly")
+                try:
+                    self.exec_block(fn.node.body, fr)
+                except _Return:
+                    pass
+                return list(fr.yielded)
             try:
                 self.exec_block(fn.node.body, fr)
             except _Return as r:
